@@ -53,11 +53,14 @@ const (
 	BCfgErr   = "cfgerr"   // Configure handler fails
 	BSyncFail = "syncfail" // Synchronize handler fails
 	BDieLater = "dielater" // exits once <reports>/die.<file name> exists (after synchronisation)
+	// closes its connection to the runtime once <reports>/die.<file name> exists (after synchronisation),
+	// writes <reports>/<file name>.closed when its end is closed, and keeps running
+	BHangLater = "hanglater"
 )
 
 // Behaviour returns the behaviour selected by a plugin file name ("" = well behaved).
 func Behaviour(file string) string {
-	for _, b := range []string{BExit, BNoReg, BCloseFd, BCfgErr, BSyncFail, BDieLater} {
+	for _, b := range []string{BExit, BNoReg, BCloseFd, BCfgErr, BSyncFail, BDieLater, BHangLater} {
 		if strings.Contains(file, b) {
 			return b
 		}
@@ -91,6 +94,7 @@ type plugin struct {
 	reports string
 	beh     string
 	nconf   int
+	st      stub.Stub
 }
 
 func (p *plugin) appendLine(name, line string) {
@@ -128,6 +132,19 @@ func (p *plugin) Synchronize(_ context.Context, pods []*api.PodSandbox, ctrs []*
 			}
 		}()
 	}
+	if p.beh == BHangLater {
+		go func() {
+			trigger := filepath.Join(p.reports, "die."+p.file)
+			for {
+				if _, err := os.Stat(trigger); err == nil {
+					break
+				}
+				time.Sleep(5 * time.Millisecond)
+			}
+			p.st.Stop() // closes this end of the connection; the process stays
+			os.WriteFile(filepath.Join(p.reports, p.file+".closed"), []byte("closed\n"), 0o644)
+		}()
+	}
 	return nil, nil
 }
 
@@ -160,7 +177,13 @@ func Main() {
 
 	var st stub.Stub
 	var err error
-	st, err = stub.New(p)
+	var opts []stub.Option
+	if p.beh == BHangLater {
+		// without a close handler the stub exits the process when its connection goes away
+		opts = append(opts, stub.WithOnClose(func() {}))
+	}
+	st, err = stub.New(p, opts...)
+	p.st = st
 	if err != nil {
 		rep.Error = err.Error()
 	} else if n, ok := st.(interface{ Name() string }); ok {
@@ -186,6 +209,9 @@ func Main() {
 	if err := st.Run(context.Background()); err != nil {
 		p.appendLine(file+".runerr", err.Error())
 		os.Exit(6)
+	}
+	if p.beh == BHangLater {
+		time.Sleep(time.Hour) // stays around (at most until the self-destruct above) after closing its connection
 	}
 }
 
